@@ -109,4 +109,51 @@ theorem resolveArgs_fold (fns : List Token.FnDef) (args : List Val)
       have : es = [] := by simpa [Errs.pfx] using hes
       exact absurd this (resolve_error_nonempty _ _ _ _ _ _ hr)
 
+
+/-! ### fields and calls -/
+
+theorem compileFields_fold (fns : List Token.FnDef) (l : List (String × Val)) (acc : Imports.St × List Output.Field × Errs) :
+    (l.foldl (compileFieldStep fns) acc).2.1.map (·.name) = acc.2.1.map (·.name) ++ l.map (·.1) := by
+  induction l generalizing acc with
+  | nil => simp
+  | cons nv l ih =>
+    rw [List.foldl_cons, ih]
+    unfold compileFieldStep
+    split <;> simp
+
+theorem compileCalls_fold (fns : List Token.FnDef) (l : List Input.Call) (acc : Imports.St × List Output.Call × Errs × Nat) :
+    (l.foldl (compileCallStep fns) acc).2.1.map (fun c => (c.method, c.immutable)) =
+      acc.2.1.map (fun c => (c.method, c.immutable)) ++ l.map (fun c => (c.method, c.immutable)) := by
+  induction l generalizing acc with
+  | nil => simp
+  | cons c l ih =>
+    rw [List.foldl_cons, ih]
+    simp [compileCallStep]
+
+/-- errors only accumulate; if none is recorded at the end, every call's compiled arguments are the declared ones -/
+theorem compileCalls_args (fns : List Token.FnDef) (l : List Input.Call) (acc : Imports.St × List Output.Call × Errs × Nat)
+    (h : (l.foldl (compileCallStep fns) acc).2.2.1 = []) :
+    acc.2.2.1 = [] ∧
+    (l.foldl (compileCallStep fns) acc).2.1.map (fun c => c.args.map (·.raw)) =
+      acc.2.1.map (fun c => c.args.map (·.raw)) ++ l.map (·.args) := by
+  induction l generalizing acc with
+  | nil => simpa using h
+  | cons c l ih =>
+    rw [List.foldl_cons] at h ⊢
+    obtain ⟨h1, h2⟩ := ih _ h
+    simp only [compileCallStep, List.append_eq_nil_iff] at h1
+    refine ⟨h1.1, ?_⟩
+    rw [h2]
+    have hargs : (resolveArgs fns acc.1 c.args).2.2 = [] := by
+      have := h1.2
+      simpa [Errs.pfx] using this
+    have hraw : (resolveArgs fns acc.1 c.args).2.1.map (·.raw) = c.args := by
+      unfold resolveArgs at *
+      have := resolveArgs_fold fns c.args acc.1 [] [] 0
+      simp only at hargs ⊢
+      have he : (c.args.foldl (resolveArgsStep fns) (acc.1, [], [], 0)).2.2.1 = [] := by
+        simpa [Errs.pfx] using hargs
+      simpa using (this.2 he).2
+    simp [compileCallStep, hraw]
+
 end GM.C02
